@@ -232,6 +232,199 @@ func compressSites() ([]csite, bool) {
 	return sites, unknown
 }
 
+// vhostHandoffReleased: is the hand-off send of Muxer.handle released by Listener.Close?
+func vhostHandoffReleased() (released bool, closes []string, found bool) {
+	fset := token.NewFileSet()
+	f, err := parser.ParseFile(fset, filepath.Join(tx.Repo, "pkg/util/vhost/vhost.go"), nil, 0)
+	if err != nil {
+		return false, nil, false
+	}
+	closed := map[string]bool{}
+	var handle *ast.FuncDecl
+	for _, d := range f.Decls {
+		fd, ok := d.(*ast.FuncDecl)
+		if !ok || fd.Body == nil || fd.Recv == nil {
+			continue
+		}
+		if fd.Name.Name == "Close" && strings.Contains(selPathType(fd.Recv.List[0].Type), "Listener") {
+			ast.Inspect(fd.Body, func(n ast.Node) bool {
+				if c, ok := n.(*ast.CallExpr); ok {
+					if id, ok := c.Fun.(*ast.Ident); ok && id.Name == "close" && len(c.Args) == 1 {
+						if s, ok := c.Args[0].(*ast.SelectorExpr); ok {
+							closed[s.Sel.Name] = true
+						}
+					}
+				}
+				return true
+			})
+		}
+		if fd.Name.Name == "handle" && strings.Contains(selPathType(fd.Recv.List[0].Type), "Muxer") {
+			handle = fd
+		}
+	}
+	for k := range closed {
+		closes = append(closes, k)
+	}
+	sort.Strings(closes)
+	if handle == nil {
+		return false, closes, false
+	}
+	sends := 0
+	okAll := true
+	var visit func(n ast.Node, inRecover bool, sel *ast.SelectStmt)
+	visit = func(n ast.Node, inRecover bool, sel *ast.SelectStmt) {
+		ast.Inspect(n, func(m ast.Node) bool {
+			switch v := m.(type) {
+			case *ast.CallExpr:
+				if strings.HasSuffix(selPath(v.Fun), "PanicToError") {
+					for _, a := range v.Args {
+						if fl, ok := a.(*ast.FuncLit); ok {
+							visit(fl.Body, true, nil)
+						}
+					}
+					return false
+				}
+			case *ast.SelectStmt:
+				for _, cc := range v.Body.List {
+					c := cc.(*ast.CommClause)
+					if ss, ok := c.Comm.(*ast.SendStmt); ok {
+						if sx, ok := ss.Chan.(*ast.SelectorExpr); ok && sx.Sel.Name == "accept" {
+							sends++
+							// released if a sibling case receives from a channel Close closes
+							rel := false
+							for _, oc := range v.Body.List {
+								o := oc.(*ast.CommClause)
+								if o.Comm == nil {
+									continue
+								}
+								var e ast.Expr
+								switch w := o.Comm.(type) {
+								case *ast.ExprStmt:
+									e = w.X
+								case *ast.AssignStmt:
+									if len(w.Rhs) == 1 {
+										e = w.Rhs[0]
+									}
+								}
+								if u, ok := e.(*ast.UnaryExpr); ok && u.Op == token.ARROW {
+									if sx2, ok := u.X.(*ast.SelectorExpr); ok && closed[sx2.Sel.Name] {
+										rel = true
+									}
+								}
+							}
+							if !rel && !(inRecover && closed["accept"]) {
+								okAll = false
+							}
+						}
+					}
+					for _, b := range c.Body {
+						visit(b, inRecover, nil)
+					}
+				}
+				return false
+			case *ast.SendStmt:
+				if sx, ok := v.Chan.(*ast.SelectorExpr); ok && sx.Sel.Name == "accept" {
+					sends++
+					if !(inRecover && closed["accept"]) {
+						okAll = false
+					}
+				}
+			}
+			return true
+		})
+	}
+	visit(handle.Body, false, nil)
+	return okAll && sends == 1, closes, true
+}
+
+func selPathType(e ast.Expr) string {
+	if st, ok := e.(*ast.StarExpr); ok {
+		return selPath(st.X)
+	}
+	return selPath(e)
+}
+
+// legacyPoolFields: every assignment to Transport.MaxPoolCount / Transport.PoolCount in the legacy ini
+// conversion, with the source field and that field's ini key.
+func legacyPoolFields() [][3]string {
+	var rows [][3]string
+	dir := filepath.Join(tx.Repo, "pkg/config/legacy")
+	fset := token.NewFileSet()
+	tags := map[string]map[string]string{} // struct -> field -> ini key
+	var convs []*ast.FuncDecl
+	for _, name := range []string{"conversion.go", "server.go", "client.go"} {
+		f, err := parser.ParseFile(fset, filepath.Join(dir, name), nil, 0)
+		if err != nil {
+			return [][3]string{{"unparsed", name, ""}}
+		}
+		for _, d := range f.Decls {
+			switch v := d.(type) {
+			case *ast.FuncDecl:
+				if strings.HasPrefix(v.Name.Name, "Convert_") && strings.HasSuffix(v.Name.Name, "CommonConf_To_v1") {
+					convs = append(convs, v)
+				}
+			case *ast.GenDecl:
+				for _, sp := range v.Specs {
+					ts, ok := sp.(*ast.TypeSpec)
+					if !ok {
+						continue
+					}
+					st, ok := ts.Type.(*ast.StructType)
+					if !ok {
+						continue
+					}
+					tags[ts.Name.Name] = map[string]string{}
+					for _, fl := range st.Fields.List {
+						if fl.Tag == nil {
+							continue
+						}
+						tag := strings.Trim(fl.Tag.Value, "`")
+						key := ""
+						if i := strings.Index(tag, `ini:"`); i >= 0 {
+							rest := tag[i+5:]
+							if j := strings.Index(rest, `"`); j >= 0 {
+								key = rest[:j]
+							}
+						}
+						for _, n := range fl.Names {
+							tags[ts.Name.Name][n.Name] = key
+						}
+					}
+				}
+			}
+		}
+	}
+	for _, fd := range convs {
+		confType := ""
+		if len(fd.Type.Params.List) == 1 {
+			confType = selPathType(fd.Type.Params.List[0].Type)
+		}
+		ast.Inspect(fd.Body, func(n ast.Node) bool {
+			as, ok := n.(*ast.AssignStmt)
+			if !ok || len(as.Lhs) != 1 || len(as.Rhs) != 1 {
+				return true
+			}
+			lhs := selPath(as.Lhs[0])
+			for _, target := range []string{"Transport.MaxPoolCount", "Transport.PoolCount"} {
+				if strings.HasSuffix(lhs, "."+target) {
+					src := selPath(as.Rhs[0])
+					field := src
+					if i := strings.LastIndex(src, "."); i >= 0 {
+						field = src[i+1:]
+					}
+					if !strings.HasPrefix(src, "conf.") {
+						field = "?" + tx.Sanitize(src)
+					}
+					rows = append(rows, [3]string{target, field, tags[confType][field]})
+				}
+			}
+			return true
+		})
+	}
+	sort.Slice(rows, func(i, j int) bool { return rows[i][0]+rows[i][1] < rows[j][0]+rows[j][1] })
+	return rows
+}
+
 func runPaths() ([]byte, error) {
 	var out bytes.Buffer
 	fmt.Fprintf(&out, "(* generated by translator unit T11send (paths) from server/group/*.go and every WithCompressionFromPool call site; do not edit *)\n")
@@ -259,6 +452,21 @@ func runPaths() ([]byte, error) {
 			sep = ""
 		}
 		fmt.Fprintf(&out, "  (%q%%string, %q%%string, %v, %v, %v)%s\n", s.file, s.fn, s.hasResults, s.recycleOK, s.joins, sep)
+	}
+	fmt.Fprintf(&out, "].\n\n")
+	rel, closes, found := vhostHandoffReleased()
+	fmt.Fprintf(&out, "(* vhost.Muxer.handle: the hand-off send on Listener.accept is recover-wrapped and Close closes accept, or it is a select\n   case next to a receive from a channel Close closes; Listener.Close closes: %s *)\n", strings.Join(closes, ", "))
+	fmt.Fprintf(&out, "Definition gen_vhost_handle_found : bool := %v.\n", found)
+	fmt.Fprintf(&out, "Definition gen_vhost_handoff_released_by_close : bool := %v.\n\n", rel && found)
+	fmt.Fprintf(&out, "(* legacy ini conversion: (target field of the v1 config, source field of the legacy struct, its ini key) *)\n")
+	fmt.Fprintf(&out, "Definition gen_legacy_pool_fields : list (string * string * string) := [\n")
+	lrows := legacyPoolFields()
+	for i, r := range lrows {
+		sep := ";"
+		if i == len(lrows)-1 {
+			sep = ""
+		}
+		fmt.Fprintf(&out, "  (%q%%string, %q%%string, %q%%string)%s\n", r[0], r[1], r[2], sep)
 	}
 	fmt.Fprintf(&out, "].\n")
 	return out.Bytes(), nil
